@@ -191,8 +191,17 @@ func (f *funcObject) getOwnPropStr(name unistring.String) Value {
 	return f.baseObject.getOwnPropStr(name)
 }
 
+// ensureProto materialises the lazily created 'prototype' property. As far as scripts can tell it exists from the
+// creation of the function, so it has to take its place in the own-key order before any other string key is
+// created or the keys are listed.
+func (f *funcObject) ensureProto() {
+	if _, exists := f.values["prototype"]; !exists {
+		f.addPrototype()
+	}
+}
+
 func (f *funcObject) setOwnStr(name unistring.String, val Value, throw bool) bool {
-	f._addProto(name)
+	f.ensureProto()
 	return f.baseObject.setOwnStr(name, val, throw)
 }
 
@@ -201,7 +210,7 @@ func (f *funcObject) setForeignStr(name unistring.String, val, receiver Value, t
 }
 
 func (f *funcObject) defineOwnPropertyStr(name unistring.String, descr PropertyDescriptor, throw bool) bool {
-	f._addProto(name)
+	f.ensureProto()
 	return f.baseObject.defineOwnPropertyStr(name, descr, throw)
 }
 
@@ -229,9 +238,7 @@ func (f *funcObject) hasOwnPropertyStr(name unistring.String) bool {
 
 func (f *funcObject) stringKeys(all bool, accum []Value) []Value {
 	if all {
-		if _, exists := f.values["prototype"]; !exists {
-			accum = append(accum, asciiString("prototype"))
-		}
+		f.ensureProto()
 	}
 	return f.baseFuncObject.stringKeys(all, accum)
 }
